@@ -29,10 +29,39 @@ def run(ctx):
         enc = {}
         for e in rm.entries(regex=r"envelopes::ReconEncoder as tokio_util::codec::encoder::Encoder<swimos_messages::protocol::(Request|Response)Message.*::encode$"):
             b = ctx.saw(rm.body(e))
-            for c in b.calls:
-                if c.name == "write_header":
-                    v = [l for d, l, _ in dom_guards(b, c.block) if d == "disc(item.envelope)"]
-                    enc[v[0] if v else "?"] = describe_operand(b, c.args[0]).strip("'")
+            whs = [c for c in b.calls if c.name == "write_header"]
+            # the literal handed to write_header, per envelope variant: written at the call (`Link => write_header(LINK_HEADER, ..)`) or chosen by the
+            # match and written once (`let header = match envelope { Link => LINK_HEADER, .. }; write_header(header, ..)`)
+            flows = set()
+            for c in whs:
+                d0 = describe_operand(b, c.args[0]).strip("'")
+                if d0 in KIND_OF_HEADER:
+                    flows.add(d0)
+                for x in b.sources(c.args[0], stop_at_calls=False):
+                    if x[0] == "const":
+                        flows.add(describe_operand(b, ["k", x[2]]).strip("'"))
+            def note(blk, op):
+                if op[0] != "k":
+                    return
+                lit = describe_operand(b, op).strip("'")
+                if lit in KIND_OF_HEADER and lit in flows:
+                    v = [l for d, l, _ in dom_guards(b, blk) if d == "disc(item.envelope)"]
+                    for k_ in (v[0].split("|") if v else ["?"]):
+                        enc.setdefault(k_, lit)
+            for blk in range(b.n):
+                if b.is_cleanup(blk):
+                    continue
+                for s_ in b.stmts(blk):
+                    if s_[0] == "A":
+                        rv = s_[2]
+                        for o in ([rv[1]] if rv[0] == "use" else (rv[2] if rv[0] == "agg" else ([rv[2]] if rv[0] == "cast" else []))):
+                            if isinstance(o, list):
+                                note(blk, o)
+                cl_ = b.call_at(blk)
+                if cl_ is not None:
+                    for a in cl_.args:
+                        note(blk, a)
+        enc.pop("?", None)
         if len(enc) != 8:
             raise AnchorMissing("ReconEncoder: expected 8 write_header sites under the envelope match, found %d" % len(enc))
         # (b) peeler tag: literal -> EnvelopeKind
@@ -124,13 +153,23 @@ def run(ctx):
             if c.name in ("command", "event", "unlinked") and ("RequestMessage" in c.defpath or "ResponseMessage" in c.defpath):
                 v = [l for d, l, _ in dom_guards(ie, c.block) if d == "disc(envelope)"][0]
                 body = c.args[2]
-                srcs = ie.sources(body)
+                srcs = ie.sources(body, stop_at_calls=False)
                 from_body = any(s[0] == "field" and "body" in s[1].fields and v in s[1].variants for s in srcs)
                 r.check(from_body, "interpret_envelope/%s/body-derives-from-envelope" % v, c.loc(), "the message body derives from the envelope's body", "the body passed to %s does not come from the envelope" % c.name)
                 if c.name == "unlinked":
                     # Option body: Some(body) exactly on the non-empty edge
                     somes = [(i, dom_guards(ie, i)) for i, j, p, rv, line in ie.assigns() if rv[0] == "agg" and rv[1].get("variant") == "Some" and describe_rvalue(ie, rv).startswith("Option::Some(envelope<Unlinked>.body") and any(l == "Unlinked" for d, l, _ in dom_guards(ie, i))]
                     good = bool(somes) and all(any(d.startswith("is_empty(") and l == "false" for d, l, _ in g) for i, g in somes)
+                    if not good:
+                        # `Some(body).filter(|text| !text.is_empty())`: kept exactly when the predicate says non-empty
+                        for fc in ie.calls:
+                            if fc.name == "filter" and any(x is fc for k_, x in [(s_[0], s_[1]) for s_ in srcs if s_[0] == "call"]) and "Option::Some(" in describe_operand(ie, fc.args[0]):
+                                for cd in fc.callee.get("closure_args", ()):
+                                    if cd in rm.by_def:
+                                        cb = rm.body(cd)
+                                        rets = [describe_rvalue(cb, rv) for i, j, p, rv, line in cb.assigns() if p[0] == 0 and not p[1]]
+                                        if rets and all(x.startswith("Not(is_empty(") for x in rets):
+                                            good = True
                     r.check(good, "interpret_envelope/Unlinked/body-forwarded", c.loc(), "a non-empty unlinked body is forwarded as Some(body)",
                             "the unlinked body is kept only when it is empty: a non-empty body (e.g. @laneNotFound) is replaced by None")
         for e in rm.entries(regex=r"envelopes::ReconEncoder as tokio_util::codec::encoder::Encoder<swimos_messages::protocol::(Request|Response)Message.*::encode$"):
@@ -183,7 +222,9 @@ def run(ctx):
             for i, j, p, rv, line in cb.assigns():
                 if rv[0] == "agg" and rv[1].get("variant") == "Some" and rv[2]:
                     g = guards(cb, i)
-                    if any(d.startswith("is_err(") and l == "true" for d, l, _ in g):
+                    # on the failure edge of the send, however it is examined: `.is_err()`, `!.is_ok()`, `match .. { Err(_) => Some(i) }`
+                    if any((d.startswith("is_err(") and l == "true") or (d.startswith("is_ok(") and l == "false") or (d.startswith("disc(") and l == "Err") for d, l, _ in g) \
+                            and not any(d.startswith("disc(") and l == "Ok" for d, l, _ in g[-1:]):
                         okp = True
         en = [c for c in b.calls if c.via_name == "enumerate"]
         r.check(okp and len(en) >= 1, "send_response/failed-index-is-enumerate-index", where(b), "a failed send reports Some(i) with i from iter_mut().enumerate()", "failed sends are no longer identified by their enumerate() index")
